@@ -148,14 +148,14 @@ def run(ctx):
         ctx.note_inconclusive("Trace_Belt evaluated %d of %d state-overlap lines (rc=%s)" % (ns, len(srows), rs.rc))
     for i in bads:
         x = srows[i - 1]
-        ctx.violation("state:%s:%s:%s" % (x["f"], x["kind"], x["pos"] if x["pos"] != "sweep" else "off%d" % x["off"]),
+        ctx.violation("state:%s:%s:%s" % (x["f"], x["kind"], x["pos"] if x["pos"] != "sweep" else "off%d" % x.get("off", 0)),
                       "%s with the %s %s the state (%s) differs from the disjoint-buffer result"
-                      % (x["f"], "key inside / straddling" if x["kind"] == "start" else "tag buffer inside / straddling", "of *Start" if x["kind"] == "start" else "of StepG", "%s, offset %d" % (x["pos"], x["off"])),
+                      % (x["f"], "key inside / straddling" if x["kind"] == "start" else "tag buffer inside / straddling", "of *Start" if x["kind"] == "start" else "of StepG", "%s, offset %s" % (x["pos"], x.get("off", "-"))),
                       {"command": scmds[i - 1].strip(), "line": x})
     ev.cov["evaluations"] += ns
     ev.cov["traces_validated_against_impl"] += ns
     ev.cov["state_overlap_lines"] = ns
-    ev.cov["distinct_nontrivial"] += len(set((x["f"], x["pos"], x["off"], len(x.get("key", [])), len(x.get("in", []))) for x in srows))
+    ev.cov["distinct_nontrivial"] += len(set((x["f"], x["pos"], x.get("off"), len(x.get("key", [])), len(x.get("in", []))) for x in srows))
     ev.cov["functions"] += sorted(set("state:" + x["f"] for x in srows))
     # ---- DER: encoders / decoders whose header lets val (and len) overlap der, through the codec driver
     try:
